@@ -414,6 +414,40 @@ func runCloneCompleteness(c *core.Ctx) {
 			walkP(g) // Persist itself, or an unexported helper it calls (the write may have been extracted)
 		}
 		c.Check("snapshot-is-a-value", pf.Name+"/marshals-own-Data", pf.PosStr(), marshalOnOwn, "Persist must marshal the *Data captured by Snapshot()")
+		// Persist reports success only after the sink was closed without an error: FileSnapshotSink.Close is where the
+		// snapshot is flushed, fsynced and renamed into place, and raft compacts the log once Persist returned nil
+		sinkClose := func(ce *ast.CallExpr) bool {
+			se, ok := ce.Fun.(*ast.SelectorExpr)
+			if !ok || se.Sel.Name != "Close" {
+				return false
+			}
+			t := pf.Info().TypeOf(se.X)
+			return t != nil && strings.HasSuffix(t.String(), "raft.SnapshotSink")
+		}
+		unit := workUnit(c.P, pf, sinkClose)
+		if unit == nil {
+			unit = pf
+		}
+		sinkCloseU := func(ce *ast.CallExpr) bool {
+			se, ok := ce.Fun.(*ast.SelectorExpr)
+			if !ok || se.Sel.Name != "Close" {
+				return false
+			}
+			t := unit.Info().TypeOf(se.X)
+			return t != nil && strings.HasSuffix(t.String(), "raft.SnapshotSink")
+		}
+		nClose := 0
+		for _, e := range unit.Graph().Events {
+			if e.Kind == core.EvCall && e.Call != nil && sinkCloseU(e.Call) {
+				nClose++
+			}
+		}
+		c.Check("snapshot-durable-before-success", pf.Name+"/sink.Close-is-called-and-tested", pf.PosStr(), nClose >= 1,
+			"Persist never calls sink.Close() as a tested call (a deferred Close drops its error): a snapshot whose flush, fsync or rename failed is reported as persisted and raft compacts the log it would have been rebuilt from")
+		if nClose >= 1 {
+			returnsOnlyAfterOK(c, unit, "snapshot-durable-before-success", "sink.Close", sinkCloseU, nil)
+			errPropagated(c, unit, "snapshot-durable-before-success", "sink.Close", sinkCloseU)
+		}
 	}
 }
 
